@@ -9,7 +9,7 @@ from ..dataflow import bind_call, fmt_origin, origins
 from ..decide import Decider, expand_expr
 from ..loader import AnalysisError, FuncInfo, site_packages
 from ..report import Ctx
-from .common import all_guards, call_name, direct_guards, norm, reachable_functions, where
+from .common import all_guards, call_name, deep_origins, direct_guards, norm, reachable_functions, where
 
 # ---- effect table: calls that mutate the file system (frozen; one reason per family)
 FS_METHODS = {
@@ -379,25 +379,47 @@ def check_usage_errors(ctx: Ctx) -> None:
     mflow = prog.flow(main)
     rfs = repo.func("flowmark.reformat_api:reformat_files")
     rf = repo.func("flowmark.reformat_api:reformat_file")
-    # (a) main: handlers and the no-input branch return non-zero constants
-    call_nodes = [n for n, c in mflow.all_calls() if prog.resolve_call(main, c) == [rfs]]
-    ctx.require("R-USAGE", "call to reformat_files in main", len(call_nodes), 1)
+    # (a) main: what the process exits with when the run raises, and on the no-input branch. The call of reformat_files may
+    #     sit in main or in a private helper main returns the result of.
+    from .common import exclusive_helpers
+
+    holders = [main] + [repo.functions[q] for q in sorted(exclusive_helpers(prog, main)) if q in repo.functions]
+    run_sites = [(f, n, c) for f in holders if not isinstance(f.node, ast.Lambda) for n, c in prog.flow(f).all_calls() if prog.resolve_call(f, c) == [rfs]]
+    ctx.require("R-USAGE", "call to reformat_files in main", len(run_sites), 1)
+    call_nodes = [n for f, n, c in run_sites if f is main]
     n_ret = 0
+    handlers: list[str] = []
+    for f, cn, c in run_sites:
+        fl = prog.flow(f)
+        t = _enclosing_try(cn.ast)
+        if t is not None:
+            handlers = [ast.unparse(h.type) if h.type is not None else "<bare>" for h in t.handlers]
+        hnodes = [s_ for s_, lab in cn.succ if lab == "exc" and s_.kind == "except"]
+        for hn in hnodes:
+            dec = Decider(prog, lambda _leaf, _al: None)
+            vals: set = set()
+            ends = 0
+            for end, _env, _benv, outs in dec.walk(f, hn, None, frozenset()):
+                if end is not None and end.kind == "stmt" and isinstance(end.ast, ast.Return) and outs and isinstance(outs[-1], frozenset):
+                    vals |= outs[-1]
+                    ends += 1
+                else:
+                    vals.add(None)
+            n_ret += 1
+            htxt = ast.unparse(hn.ast.type) if getattr(hn.ast, "type", None) is not None else "<bare>"
+            ok = ends > 0 and all(isinstance(v, int) and not isinstance(v, bool) and v != 0 for v in vals)
+            ctx.ob("R-USAGE", f"{main.qual} :: except {htxt} -> return", ok,
+                   f"an error from the run must give a non-zero exit status; after this handler the function returns {sorted(map(str, vals))}", where(f, hn))
+        if f is not main:
+            # main hands that helper's result out as the exit status
+            passes = any(any(o == ("call", f.qual) for o in deep_origins(prog, main, r.ast.value, r, stop={f.qual})) for r in mflow.cfg.returns())
+            ctx.ob("R-USAGE", f"{main.qual} :: exit status of the run is returned", passes,
+                   f"main must return what {f.name} returns (the status computed from the handlers)", where(main, main.node))
     for r in mflow.cfg.returns():
         val = r.ast.value
-        in_handler = _in_except(r.ast)
         guards = [(b, lab) for b, lab in all_guards(prog, main, r) if b.kind == "test"]
         no_input = any(lab == "T" and _is_not_files(prog, main, b) for b, lab in guards)
-        if in_handler is not None:
-            n_ret += 1
-            # every value the return expression can take (conditional expressions and temporaries read through)
-            dec = Decider(prog, lambda _leaf, _al: None)
-            dec._cur = (main, r)
-            vals = dec.ev(main, expand_expr(prog, main, val, r), {}, {}, frozenset(), 0) if val is not None else frozenset({None})
-            ok = bool(vals) and all(isinstance(v, int) and not isinstance(v, bool) and v != 0 for v in vals)
-            ctx.ob("R-USAGE", f"{main.qual} :: except {in_handler} -> return", ok,
-                   f"an error from the run must give a non-zero exit status, returns {norm(val) if val else None}", where(main, r))
-        elif no_input:
+        if no_input and _in_except(r.ast) is None:
             n_ret += 1
             ok = isinstance(val, ast.Constant) and isinstance(val.value, int) and val.value != 0
             ctx.ob("R-USAGE", f"{main.qual} :: no-input branch -> return", ok,
@@ -408,12 +430,6 @@ def check_usage_errors(ctx: Ctx) -> None:
             ctx.ob("R-USAGE", f"{main.qual} :: no-input return precedes the run", p is None,
                    "the no-input error is decided before anything is formatted", where(main, r))
     ctx.require("R-USAGE", "error returns of main", n_ret, 2)
-    # the try around reformat_files catches ValueError (usage) and Exception (I/O), both mapped above
-    handlers = []
-    for cn in call_nodes:
-        t = _enclosing_try(cn.ast)
-        if t is not None:
-            handlers = [ast.unparse(h.type) if h.type is not None else "<bare>" for h in t.handlers]
     ctx.ob("R-USAGE", f"{main.qual} :: handlers around the run", bool({"ValueError", "Exception", "BaseException", "<bare>"} & set(handlers)),
            f"usage errors raised as ValueError must be caught and mapped to an exit status; handlers: {handlers}", where(main, main.node))
     # (b) reformat_files: a usage error that the per-file callee raises must be pre-checked before the loop,
